@@ -80,8 +80,10 @@ static void judge(const pop *h, int hl, uint64_t fmask, int stsize, int rret, in
     unsigned call = 0; int ok0 = !((fmask >> call) & 1);
     if ((t1.init_status != 0) != ok0) hx_fail("prng:status:init", "ascon_random_init returned %d with the system source %s: history [%s] plan %s", t1.init_status, ok0 ? "healthy" : "failing", hs, plan);
     if (!forward_secure(t1.init_state)) hx_fail("prng:forward-security", "state after init has not been through zero-the-rate-then-permute: plan %s", plan);
-    int pure = 1; for (int i = 0; i < hl; i++) if (h[i].k == K_SAVE || h[i].k == K_LOAD) pure = 0;
-    uint32_t produced = 0;
+    /* bytes produced since the last reseed: lo counts fetched bytes only, hi also counts the 32-byte seeds written by save_seed / load_seed
+     * (the property does not say whether those count; a reseed is demanded when lo >= LIMIT, forbidden when hi < LIMIT, and either is accepted in between) */
+    uint32_t lo = 0, hi = 0;
+#define ADDP(n) do { lo = ((n) >= LIMIT || lo + (n) >= LIMIT) ? LIMIT : lo + (n); hi = ((n) >= LIMIT || hi + (n) >= LIMIT) ? LIMIT : hi + (n); } while (0)
     for (int i = 0; i < hl; i++) {
         unsigned made = t1.calls_after[i] - t1.calls_before[i];
         int first_ok = !((fmask >> t1.calls_before[i]) & 1);
@@ -89,27 +91,40 @@ static void judge(const pop *h, int hl, uint64_t fmask, int stsize, int rret, in
         switch (h[i].k) {
         case K_FETCH:
             if (t1.status[i] == -99) hx_fail("prng:stray-write", "fetch wrote beyond its output: history [%s]", hs);
-            if (pure) {
-                unsigned want = produced >= LIMIT ? 1 : 0;
-                if (made != want) hx_fail("prng:reseed-trigger", "fetch #%d made %u system-source calls with %u bytes produced since the last reseed (expected %u): history [%s] plan %s", i, made, produced, want, hs, plan);
-                if (want) produced = 0;
-                produced = (h[i].n >= LIMIT || produced + h[i].n >= LIMIT) ? LIMIT : produced + h[i].n;
-            }
+            if (lo >= LIMIT && made != 1) hx_fail("prng:reseed-trigger", "fetch #%d made %u system-source calls with %u bytes fetched since the last reseed (expected 1): history [%s] plan %s", i, made, lo, hs, plan);
+            else if (hi < LIMIT && made != 0) hx_fail("prng:reseed-trigger", "fetch #%d made %u system-source calls with only %u bytes produced since the last reseed (expected 0): history [%s] plan %s", i, made, hi, hs, plan);
+            else if (made > 1) hx_fail("prng:reseed-trigger", "fetch #%d made %u system-source calls: history [%s] plan %s", i, made, hs, plan);
+            if (made) lo = hi = 0;
+            ADDP(h[i].n);
             break;
         case K_RESEED:
             if (made != 1) hx_fail("prng:reseed-trigger", "explicit reseed made %u system-source calls: history [%s]", made, hs);
             if ((t1.status[i] != 0) != first_ok) hx_fail("prng:status:reseed", "ascon_random_reseed returned %d with the system source %s: history [%s] plan %s", t1.status[i], first_ok ? "healthy" : "failing", hs, plan);
-            produced = 0; break;
+            lo = hi = 0; break;
         case K_REINIT:
             if ((t1.status[i] != 0) != first_ok) hx_fail("prng:status:init", "ascon_random_init returned %d with the system source %s: history [%s] plan %s", t1.status[i], first_ok ? "healthy" : "failing", hs, plan);
-            produced = 0; break;
+            lo = hi = 0; break;
         case K_SAVE: {
             int want = (stsize >= 32 && wret == 32) ? 0 : -1;
             if (t1.status[i] != want) hx_fail("prng:status:save_seed", "ascon_random_save_seed returned %d, documented result is %d (storage size %d, write callback returns %d): history [%s]", t1.status[i], want, stsize, wret, hs);
+            if (stsize >= 32) {
+                /* the saved seed is generator output: no more of it without fresh entropy once the limit has been reached */
+                if (lo >= LIMIT && made != 1) hx_fail("prng:reseed-trigger", "save_seed #%d produced a seed without drawing fresh entropy although %u bytes had been fetched since the last reseed: history [%s] plan %s", i, lo, hs, plan);
+                else if (hi < LIMIT && made != 0) hx_fail("prng:reseed-trigger", "save_seed #%d made %u system-source calls with only %u bytes produced since the last reseed: history [%s] plan %s", i, made, hi, hs, plan);
+                if (made) lo = hi = 0;
+                hi = hi + 32 >= LIMIT ? LIMIT : hi + 32;
+            } else if (made) hx_fail("prng:reseed-trigger", "save_seed refused for lack of space but consumed system entropy: history [%s]", hs);
             break; }
         case K_LOAD: {
             int want = (stsize >= 32 && rret == 32) ? 0 : -1;
             if (t1.status[i] != want) hx_fail("prng:status:load_seed", "ascon_random_load_seed returned %d, documented result is %d (storage size %d, read callback returns %d): history [%s]", t1.status[i], want, stsize, rret, hs);
+            if (stsize >= 32) {
+                /* it writes a new seed (generator output) afterwards; the implementation also mixes in fresh system entropy first, which the property does not demand */
+                if (made > 1) hx_fail("prng:reseed-trigger", "load_seed #%d made %u system-source calls: history [%s] plan %s", i, made, hs, plan);
+                if (made == 0 && lo >= LIMIT) hx_fail("prng:reseed-trigger", "load_seed #%d produced a new seed without drawing fresh entropy although %u bytes had been fetched since the last reseed: history [%s] plan %s", i, lo, hs, plan);
+                if (made) lo = hi = 0;
+                hi = hi + 32 >= LIMIT ? LIMIT : hi + 32;
+            } else if (made) hx_fail("prng:reseed-trigger", "load_seed refused for lack of space but consumed system entropy: history [%s]", hs);
             break; }
         }
     }
